@@ -2014,6 +2014,15 @@ def _has_stream_request_body(cls: type[RequestHandler]) -> bool:
     return cls._stream_request_body
 
 
+def _local_redirect_path(path: str) -> str:
+    """Collapses leading slashes and backslashes of a request path.
+
+    A redirect built from the request path must never be readable as a
+    protocol-relative URL (``//host`` or ``/\\host``).
+    """
+    return "/" + path.lstrip("/\\")
+
+
 def removeslash(
     method: Callable[..., Awaitable[None] | None],
 ) -> Callable[..., Awaitable[None] | None]:
@@ -2032,6 +2041,7 @@ def removeslash(
             if self.request.method in ("GET", "HEAD"):
                 uri = self.request.path.rstrip("/")
                 if uri:  # don't try to redirect '/' to ''
+                    uri = _local_redirect_path(uri)
                     if self.request.query:
                         uri += "?" + self.request.query
                     self.redirect(uri, permanent=True)
@@ -2059,7 +2069,7 @@ def addslash(
     ) -> Awaitable[None] | None:
         if not self.request.path.endswith("/"):
             if self.request.method in ("GET", "HEAD"):
-                uri = self.request.path + "/"
+                uri = _local_redirect_path(self.request.path + "/")
                 if self.request.query:
                     uri += "?" + self.request.query
                 self.redirect(uri, permanent=True)
@@ -2984,7 +2994,9 @@ class StaticFileHandler(RequestHandler):
                     raise HTTPError(
                         403, "cannot redirect path with two initial slashes"
                     )
-                self.redirect(self.request.path + "/", permanent=True)
+                self.redirect(
+                    _local_redirect_path(self.request.path + "/"), permanent=True
+                )
                 return None
             absolute_path = os.path.join(absolute_path, self.default_filename)
         if not os.path.exists(absolute_path):
